@@ -267,7 +267,7 @@ impl Sm2PrivateKey {
                 return Ok((x, y, sm3, secret));
             })
         })
-        .unwrap();
+        .map_err(|_| Sm2Error::InvalidDer)?;
         let x = BigUint::to_bytes_be(&x);
         let y = BigUint::to_bytes_be(&y);
         let mut cipher: Vec<u8> = vec![];
